@@ -489,6 +489,18 @@ def parse_view(out):
 
 
 def oracle(ops, outs):
+    """one entry per distinct signature (the first op that shows it): vlib.step_diff only looks at the first 20
+    entries, so repeated hits of one signature must not crowd out a different one"""
+    out = []
+    seen = set()
+    for f in oracle_all(ops, outs):
+        if f[1] not in seen:
+            seen.add(f[1])
+            out.append(f)
+    return out
+
+
+def oracle_all(ops, outs):
     bad = []
     # single-item probe results of this run: (role, item bytes) -> accepted?
     probe = {}
